@@ -255,6 +255,19 @@ func genC03(t *rapid.T, tier string) (*World, any) {
 		p := "crs/regex-assembly/" + tgt + ".ra"
 		cw.W.Put(p, cw.W.Files[p].Text+"##!> assemble\n  alpha\n  ##!=< Part\n  beta\n  ##!=< pArt\n  ##!=> "+pick(t, []string{"part", "PART", "Part ", "pArt"}, "nearref")+"\n  gamma\n##!<\n")
 	}
+	if chance(t, 3, "bigblock") {
+		// a word list of several hundred entries inside a block
+		tgt := cw.Targets[0]
+		p := "crs/regex-assembly/" + tgt + ".ra"
+		var sbd strings.Builder
+		sbd.WriteString("##!> " + pick(t, []string{"assemble", "cmdline unix"}, "bigkind") + "\n")
+		bign := drawInt(t, 520, 700, "bign")
+		for k := 0; k < bign; k++ {
+			sbd.WriteString(fmt.Sprintf("  w%dx%s\n", k*7%1000, strings.Repeat("q", k%5)))
+		}
+		sbd.WriteString("##!<\n")
+		cw.W.Put(p, cw.W.Files[p].Text+sbd.String())
+	}
 	params := &C03Params{}
 	target := pick(t, cw.Targets, "target")
 	cmdKinds := []string{"generate", "generate-stdin", "update", "update-all", "compare", "compare-all", "compare-gh", "format", "format-all", "format-check"}
@@ -296,7 +309,7 @@ func genC03(t *rapid.T, tier string) (*World, any) {
 		if i > 0 {
 			a.Plan.NowUnix = simrt.DefaultNow + int64(drawInt(t, 0, 400000000, "clock"))
 			if drawBool(t, "env") {
-				a.Env = map[string]string{"UNRELATED_VAR": "x" + fmt.Sprint(i), "LC_ALL": "en_US.UTF-8"}
+				a.Env = map[string]string{"UNRELATED_VAR": "x" + fmt.Sprint(i), "LC_ALL": "en_US.UTF-8", "GOMAXPROCS": pick(t, []string{"1", "2", "3", "4", "8", "16"}, "maxprocs")}
 			}
 			if chance(t, 30, "reloc") {
 				a.Reloc = "some/deeper/parent"
